@@ -345,7 +345,7 @@ func (r *procRun) once(attempt int) []Violation {
 			if j.Cancel {
 				continue
 			}
-			if done, _ := isDone(i); done {
+			if done, _ := isDone(i); done && !strings.Contains(j.Shape, "orphan-of-finished-task") {
 				violate("r3", "job %d was not canceled but is reported finished", i)
 			} else if n := len(markedProcs(marks[i])); n == 0 {
 				violate("r3", "job %d was not canceled but none of its processes is alive", i)
